@@ -116,6 +116,12 @@ pub fn run_c22(args: &Args) -> i32 {
             w.toggles = 1;
             w.edits = vec![1, 1];
         }));
+        // on and off again within one session (two toggles), with one edit on the other side
+        models.push(model("sync2-ro[toggles=2 edits=0,1]", 2, &[(0, 1)], &["common-base", "one-ahead"], |w| {
+            w.toggles = 2;
+            w.edits = vec![0, 1];
+            w.max_in_flight = 1;
+        }));
         // start read-only on either side
         for side in [0usize, 1] {
             models.push(model(&format!("sync2-ro[start ro={} toggles=1 edit=1]", side), 2, &[(0, 1)], &["diverged", "one-ahead"], move |w| {
